@@ -215,7 +215,8 @@ func TestVerif_C29_Requests(t *testing.T) {
 		orig := pb.Clone(msg)
 		plain, perr := pb.MarshalOptions{Deterministic: true}.Marshal(orig)
 		if perr != nil {
-			rt.Skipf("generated message is not encodable: %v", perr)
+			rec.Label("inconclusive:infrastructure") // generated message is not encodable
+			return
 		}
 
 		nearBatch := sh.NStmts >= sh.Batch-1 && sh.NStmts <= sh.Batch+1
